@@ -20,7 +20,13 @@ def check(chk, thorough=False):
     chk.run('C09.f', 'R-FLOW', 'closing a connection notifies the agent, which announces it and stops when the last one is gone during shutdown', lambda ob: c09f(tree, ob), floor=4)
     chk.run('C09.h', 'R-GUARD', 'a transfer already in progress keeps sending its segments while terminating', lambda ob: c09h(tree, ob), floor=1)
     chk.run('C09.i', 'R-GUARD', 'the idle indication that gates the close covers transfers, queues and every octet buffer down to the socket (= C18.d)', lambda ob: _c18d(tree, ob), floor=6)
+    chk.run('C09.j', 'R-PAIR', 'timers of a terminating endpoint: own transmissions do not defer the idle close, the SESS_TERM arms it (= C14.d)', lambda ob: _c14d(tree, ob), floor=4)
     chk.run('C09.g', 'R-ITER', 'agent stop/shutdown loops are not invalidated by the handlers they close and do not skip handlers', lambda ob: c09g(tree, ob), floor=2)
+
+
+def _c14d(tree, ob):
+    from .c14 import c14d
+    return c14d(tree, ob)
 
 
 def _c18d(tree, ob):
